@@ -356,3 +356,149 @@ def session_stream(ctx, stats, rng, thorough):
             else:
                 stats["session-tie:equal"] += 1
     return n_eval + n_model
+
+
+# --------------------------------------------------------------------------- 6. pieces that refer to each other (function variants)
+from harness import c11_variants as V   # noqa: E402
+
+VAR_FLOOR = 0.005      # resolution of the measured wall time (rounded to ms): a baseline below it counts as this
+VAR_RATIO = 5.0        # time ratio per doubling of the depth that is worse than quadratic
+VAR_CLAMP = 0.02       # ratios are taken against max(previous, this) so that timer noise on tiny values cannot produce one
+
+
+def variants_many(texts, limit=LIMIT, stop=3):
+    return C.run_impl("c11_impl.py", {"cases": [["variants", t] for t in texts], "limit": limit, "stop_after_timeouts": stop}, timeout=7200)
+
+
+def variants_alone(text, limit=LIMIT):
+    return C.run_impl("c11_impl.py", {"cases": [["variants", text]], "limit": limit}, timeout=limit * 4 + 60)[0]
+
+
+def duplicate_parses(parses):
+    seen, dup = set(), []
+    for name, sg in parses:
+        if sg is None:
+            continue
+        k = (name, tuple(sg))
+        if k in seen and k not in dup:
+            dup.append(k)
+        seen.add(k)
+    return [[n, list(s)] for n, s in dup]
+
+
+def variant_correspondence(ctx, stats, rng, n):
+    """Lang/VariantCost.v vs the real parser: the sequence of _parse_function invocations (name, forced signature) of
+    generated scripts of defs and calls; and the theorem's own statement (no (function, signature) parsed twice; at most
+    defs + recorded signatures parses) evaluated on the recorded sequence"""
+    progs = [V.chain_program(d, f, leaf, tail) for d in (1, 2, 3, 5, 8) for f in (1, 2, 3) for leaf in (3, 0, 1) for tail in (True, False)]
+    progs += [V.gen_program(rng) for _ in range(n)]
+    texts = [V.render(p) for p in progs]
+    impl = variants_many(texts, limit=20)
+    model = ctx.model([[102, 1, V.enc(p)] for p in progs], unit="C11x") if ctx.exes.get("C11x") else [None] * len(progs)
+    for p, t, r, m in zip(progs, texts, impl, model):
+        case = {"kind": "variant-program", "text": t}
+        stats["variants-tie:" + (r["exc"] or "accepted")] += 1
+        if r["exc"] == "Skipped":
+            continue
+        if r["exc"] not in (None, "ValueError", "SyntaxError", "Timeout"):
+            ctx.fail(f"transpiler raised {r['exc']} (neither ValueError nor SyntaxError)", case, "firmware source, ValueError or SyntaxError", {k: r[k] for k in ("exc", "msg")}, key="exc-kind:" + str(r["exc"]))
+        if r["audit"]:
+            ctx.fail("transpiling performed a file / process / import / exec access (audit event)", case, "no audit event", r["audit"], key="audit:" + r["audit"][0][0])
+        dup = duplicate_parses(r["parses"])
+        if dup:
+            ctx.disagree("the real parser parsed the body of a function twice for the same call signature (C11_variant_parsed_once holds of the model: the memo in front of _parse_function is not the model's)",
+                         case, "every (function, forced signature) at most once", {"parsed more than once": dup[:5], "body parses": r["n_parses"]})
+        n_defs = sum(1 for it in p if it[0] == "def")
+        stats["variants-tie:body parses per def <= 2" if r["n_parses"] <= 2 * n_defs else "variants-tie:body parses per def > 2"] += 1
+        if m is None or r["exc"] is not None:
+            continue
+        if m == [2]:
+            ctx.disagree("wire: the variant program could not be decoded", case, m, None)
+            continue
+        oof, mt = V.dec_trace(m)
+        if oof:
+            stats["variants-tie:model out of fuel / arity"] += 1
+            continue
+        it = V.impl_trace(r["parses"])
+        if it != mt:
+            ctx.disagree("_parse_function invocations (function, forced signature) in order: model (Lang/VariantCost.v) vs the wrapper around the real _parse_function",
+                         case, mt, it if it is not None else r["parses"][:60])
+        else:
+            stats["variants-tie:trace-equal"] += 1
+            stats["variants-tie:forced parses"] += sum(1 for e in mt if e[1] is not None)
+    return len(progs)
+
+
+def variant_families(ctx, stats, thorough):
+    """time oracle over scripts whose helpers call each other; the depth doubles.  A family is NOT PROMPT at depth n when the
+    time more than quintuples over each of the last two doublings (worse than quadratic; a healthy transpiler doubles) AND
+    exceeds the budget SLOW_REL x (the family's own time at the smallest depth - at most the median family's, at least VAR_FLOOR) x n / n0 - twice, the
+    second time alone in a new process.  No absolute number of seconds decides."""
+    fams = V.families()
+    sizes = (3, 6, 12, 24) if not thorough else (3, 6, 12, 24, 48, 96)
+    n0 = sizes[0]
+    series = {name: [] for name in fams}
+    live = list(fams)
+    reported = 0
+    n_eval = 0
+    for n in sizes:
+        if not live:
+            break
+        # baseline: the family's own time at the smallest depth, but not more than the median family at that depth (a
+        # transpiler that is already slow at the smallest depth must not buy itself a larger budget)
+        firsts = sorted(rows[0][1] for rows in series.values() if rows)
+        med0 = firsts[len(firsts) // 2] if firsts else VAR_FLOOR
+        base = {name: max(VAR_FLOOR, min(series[name][0][1], med0)) if series[name] else VAR_FLOOR for name in live}
+        budget = {name: SLOW_REL * base[name] * n / n0 for name in live}
+        limit = int(min(90, max(LIMIT, 1.5 * max(budget.values()))))
+        texts = [fams[name](n) for name in live]
+        res = variants_many(texts, limit=limit, stop=3)
+        n_eval += len(texts)
+        nxt = []
+        for name, t, r in zip(live, texts, res):
+            if r["exc"] == "Skipped":
+                stats["prompt:call-graph:skipped-after-timeouts"] += 1
+                continue
+            w = float(limit) if r["exc"] == "Timeout" else r["wall"]
+            series[name].append([n, w, r["n_parses"], r["n_blocks"], r["exc"]])
+            case = {"kind": "call-graph", "family": name, "depth": n, "text": t}
+            if r["exc"] not in (None, "ValueError", "SyntaxError", "Timeout"):
+                ctx.fail(f"transpiler raised {r['exc']} (neither ValueError nor SyntaxError)", case, "firmware source, ValueError or SyntaxError", {k: r[k] for k in ("exc", "msg")}, key="exc-kind:" + str(r["exc"]))
+            if r["audit"]:
+                ctx.fail("transpiling performed a file / process / import / exec access (audit event)", case, "no audit event", r["audit"], key="audit:" + r["audit"][0][0])
+            dup = duplicate_parses(r["parses"])
+            if dup:
+                stats["prompt:call-graph:a body parsed twice for one signature"] += 1
+                if stats["prompt:call-graph:a body parsed twice for one signature"] <= 3:
+                    ctx.disagree("the real parser parsed the body of a function twice for the same call signature (C11_variant_parsed_once holds of the model)",
+                                 {"kind": "call-graph", "family": name, "depth": n, "text": t if len(t) < 4000 else t[:4000] + "...<cut>"},
+                                 "every (function, forced signature) at most once", {"parsed more than once": dup[:5], "body parses": r["n_parses"]})
+            rows = series[name]
+            ratios = [round(b[1] / max(a[1], VAR_CLAMP), 2) for a, b in zip(rows, rows[1:])]
+            slow = len(ratios) >= 2 and min(ratios[-2:]) > VAR_RATIO and w > budget[name]
+            if slow and reported < 3:
+                again = variants_alone(t, limit)
+                w2 = float(limit) if again["exc"] == "Timeout" else again["wall"]
+                if w2 > budget[name]:
+                    reported += 1
+                    lines = t.count("\n")
+                    ctx.fail(f"transpiling does not terminate promptly: a {lines}-line script of {n + 1} helper functions calling each other (family {name}) takes "
+                             f"{'more than ' if r['exc'] == 'Timeout' else ''}{w} s where depth {n0} takes {rows[0][1]} s; the time grows x{ratios[-2]}, x{ratios[-1]} per doubling of the depth "
+                             f"(a linear transpiler doubles); again alone in a new process: {'more than ' if again['exc'] == 'Timeout' else ''}{w2} s",
+                             case, f"at most {SLOW_REL} x the time at depth {n0} ({base[name]} s) x {n}/{n0} = {round(budget[name], 2)} s and a time ratio per doubling of at most {VAR_RATIO}",
+                             {"series [depth, seconds, body parses (_parse_function), block parses (_parse_simple_lines), exception]": rows,
+                              "time ratio per doubling": ratios, "again alone": {k: again[k] for k in ("exc", "wall", "n_parses", "n_blocks")}},
+                             key="slow:call-graph")
+                    continue
+                stats["prompt:call-graph:slow-once-not-confirmed"] += 1
+            if slow or r["exc"] == "Timeout":
+                continue            # larger members would only run into the limit
+            nxt.append(name)
+        live = nxt
+    for name, rows in series.items():
+        ratios = [b[1] / max(a[1], VAR_CLAMP) for a, b in zip(rows, rows[1:])]
+        stats["prompt:call-graph:" + ("ratio per doubling <= 5" if not ratios or max(ratios[-2:]) <= VAR_RATIO else f"ratio per doubling {round(max(ratios[-2:]), 1)}")] += 1
+        if rows:
+            stats["prompt:call-graph:body parses per helper at the largest depth <= 4" if rows[-1][2] <= 4 * (rows[-1][0] + 1) + 8 else "prompt:call-graph:body parses per helper at the largest depth > 4"] += 1
+    stats["prompt:call-graph:families"] = len(fams)
+    return n_eval
